@@ -49,6 +49,7 @@ import (
 	"time"
 
 	"github.com/wi1dcard/fingerproxy/pkg/metadata"
+	"github.com/wi1dcard/fingerproxy/pkg/verifhook"
 	"golang.org/x/net/http/httpguts"
 	"golang.org/x/net/http2/hpack"
 )
@@ -1621,6 +1622,7 @@ func (sc *serverConn) processFrame(f Frame) error {
 					})
 				}
 				md.HTTP2Frames.Settings = settings
+				verifhook.At("http2.capture", md, "settings")
 			}
 		}
 		return sc.processSettings(f)
@@ -1631,6 +1633,7 @@ func (sc *serverConn) processFrame(f Frame) error {
 				headers = append(headers, metadata.HeaderField(h))
 			}
 			md.HTTP2Frames.Headers = headers
+			verifhook.At("http2.capture", md, "headers")
 			if f.HasPriority() {
 				md.HTTP2Frames.Priorities = append(md.HTTP2Frames.Priorities,
 					metadata.Priority{
@@ -1639,6 +1642,7 @@ func (sc *serverConn) processFrame(f Frame) error {
 						Exclusive: f.Priority.Exclusive,
 						Weight:    f.Priority.Weight,
 					})
+				verifhook.At("http2.capture", md, "headers.priority")
 			}
 		}
 		return sc.processHeaders(f)
@@ -1647,6 +1651,7 @@ func (sc *serverConn) processFrame(f Frame) error {
 			if md.HTTP2Frames.WindowUpdateIncrement == 0 {
 				md.HTTP2Frames.WindowUpdateIncrement = f.Increment
 			}
+			verifhook.At("http2.capture", md, "window_update")
 		}
 		return sc.processWindowUpdate(f)
 	case *PingFrame:
@@ -1663,6 +1668,7 @@ func (sc *serverConn) processFrame(f Frame) error {
 				Exclusive: f.PriorityParam.Exclusive,
 				Weight:    f.PriorityParam.Weight,
 			})
+			verifhook.At("http2.capture", md, "priority")
 		}
 		return sc.processPriority(f)
 	case *GoAwayFrame:
